@@ -33,29 +33,63 @@ struct Frame { Bytes bytes; std::string desc; };
 inline Addr rnd4(Rng& r) { return Addr::v4((uint8_t)r.pick(std::vector<int>{10, 192, 172, 8}), (uint8_t)r.next(), (uint8_t)r.next(), (uint8_t)r.range(1, 254)); }
 inline Addr rnd6(Rng& r) { uint8_t b[16]; for (int i = 0; i < 16; ++i) b[i] = (uint8_t)r.next(); b[0] = 0x20; b[1] = 0x01; return Addr::v6(b); }
 
+
+// bytes biased to small / boundary values (lengths, counts, pad sizes inside option bodies)
+inline Bytes biased_bytes(Rng& r, size_t n) { Bytes b(n); for (size_t i = 0; i < n; ++i) { int k = (int)r.below(10); b[i] = k < 4 ? (uint8_t)r.below(9) : k == 4 ? 0xff : k == 5 ? (uint8_t)n : k == 6 ? (uint8_t)(n - i) : (uint8_t)r.next(); } return b; }
+// ICMPv6 neighbour discovery message with a list of options of any type and random bodies (lengths consistent)
+inline Bytes icmp6_nd(Rng& r, const Addr& s, const Addr& d) {
+    int type = (int)r.pick(std::vector<int>{133, 134, 135, 136, 137, 133, 136}); Bytes b; b.push_back((uint8_t)type); b.push_back(0); put16(b, 0);
+    if (type == 133) put32(b, 0); else if (type == 134) { b.push_back((uint8_t)r.next()); b.push_back((uint8_t)r.next()); put16(b, (uint16_t)r.next()); put32(b, (uint32_t)r.next()); put32(b, (uint32_t)r.next()); }
+    else if (type == 135 || type == 136) { put32(b, (uint32_t)r.next() & 0xe0000000u); putb(b, rnd6(r).b, 16); } else { put32(b, 0); putb(b, rnd6(r).b, 16); putb(b, rnd6(r).b, 16); }
+    int n = (int)r.small(0, 5);
+    for (int i = 0; i < n; ++i) { int t = r.chance(0.8) ? (int)r.pick(std::vector<int>{1, 2, 3, 4, 5, 6, 7, 8, 9, 10, 11, 12, 13, 14, 15, 16, 17, 18, 19, 20, 21, 22, 23, 24, 25, 26, 27, 28, 29, 30, 31, 32}) : (int)r.below(256); size_t units = (size_t)r.range(1, 5); b.push_back((uint8_t)t); b.push_back((uint8_t)units); putb(b, biased_bytes(r, units * 8 - 2)); }
+    set16(b, 2, csum_fin(csum_add(pseudo_acc(s, d, 58, b.size()), b.data(), b.size()))); return b;
+}
+inline Bytes dhcp_random(Rng& r) {
+    Bytes b; b.push_back(r.chance(0.5) ? 1 : 2); b.push_back(1); b.push_back(6); b.push_back(0); put32(b, (uint32_t)r.next()); put16(b, 0); put16(b, r.chance(0.5) ? 0x8000 : 0); for (int i = 0; i < 4; ++i) put32(b, (uint32_t)r.next()); putb(b, r.bytes(16)); b.resize(b.size() + 64 + 128, 0); put32(b, 0x63825363);
+    int n = (int)r.small(0, 10); for (int i = 0; i < n; ++i) { int code = r.chance(0.8) ? (int)r.pick(std::vector<int>{1, 3, 6, 12, 15, 28, 50, 51, 53, 54, 55, 58, 59, 60, 61, 81, 82}) : (int)r.range(1, 254); size_t l = (size_t)r.pick(std::vector<int>{0, 1, 2, 3, 4, 5, 7, 8, 12, 16, 30}); b.push_back((uint8_t)code); b.push_back((uint8_t)l); putb(b, biased_bytes(r, l)); }
+    if (r.chance(0.8)) b.push_back(255); return b;
+}
+inline Bytes dhcpv6_random(Rng& r) {
+    Bytes b; bool relay = r.chance(0.15); if (relay) { b.push_back(r.chance(0.5) ? 12 : 13); b.push_back((uint8_t)r.below(10)); putb(b, rnd6(r).b, 16); putb(b, rnd6(r).b, 16); } else { b.push_back((uint8_t)r.range(1, 11)); b.push_back((uint8_t)r.next()); put16(b, (uint16_t)r.next()); }
+    int n = (int)r.small(0, 8); for (int i = 0; i < n; ++i) { int code = r.chance(0.85) ? (int)r.range(1, 20) : (int)r.range(0, 70); size_t l = (size_t)r.pick(std::vector<int>{0, 1, 2, 3, 4, 6, 8, 10, 12, 14, 16, 18, 24, 26, 40}); put16(b, (uint16_t)code); put16(b, (uint16_t)l); putb(b, biased_bytes(r, l)); } return b;
+}
+inline Bytes dot11_mgmt_random(Rng& r) {
+    int sub = (int)r.pick(std::vector<int>{8, 5, 4, 0, 1, 2, 3, 11, 12, 10}); Bytes f; f.push_back((uint8_t)(sub << 4)); f.push_back(0); put16(f, (uint16_t)r.next()); for (int i = 0; i < 3; ++i) { Mac m = Mac::of((uint8_t)r.range(1, 9)); putb(f, m.b, 6); } put16(f, (uint16_t)(r.next() & 0xfff0));
+    size_t fixed = sub == 8 || sub == 5 ? 12 : sub == 0 ? 4 : sub == 1 || sub == 3 ? 6 : sub == 2 ? 10 : sub == 11 ? 6 : sub == 4 ? 0 : 2; putb(f, r.bytes(fixed));
+    int n = (int)r.small(0, 10); for (int i = 0; i < n; ++i) { int id = r.chance(0.85) ? (int)r.pick(std::vector<int>{0, 1, 2, 3, 4, 5, 6, 7, 8, 9, 10, 11, 16, 32, 33, 35, 36, 37, 40, 42, 46, 48, 50, 221}) : (int)r.below(256); size_t l = (size_t)r.pick(std::vector<int>{0, 1, 2, 3, 4, 5, 6, 8, 12, 20, 24, 32}); f.push_back((uint8_t)id); f.push_back((uint8_t)l); putb(f, biased_bytes(r, l)); } return f;
+}
+inline Bytes pppoe_random(Rng& r, bool& session) {
+    session = r.chance(0.3); Bytes b; b.push_back(0x11); b.push_back(session ? 0 : (uint8_t)r.pick(std::vector<int>{0x09, 0x07, 0x19, 0x65, 0xa7})); put16(b, (uint16_t)r.next()); Bytes pl;
+    if (session) { put16(pl, 0x0021); putb(pl, r.bytes((size_t)r.small(0, 60))); } else { int n = (int)r.small(0, 8); for (int i = 0; i < n; ++i) { int t = (int)r.pick(std::vector<int>{0x0101, 0x0102, 0x0103, 0x0104, 0x0105, 0x0110, 0x0201, 0x0202, 0x0203, 0x0000}); size_t l = (size_t)r.pick(std::vector<int>{0, 1, 3, 4, 5, 8, 20}); put16(pl, (uint16_t)t); put16(pl, (uint16_t)l); putb(pl, biased_bytes(r, l)); } }
+    put16(b, (uint16_t)pl.size()); putb(b, pl); return b;
+}
+
 // ---- L4 and above, returns payload + IP protocol number
 inline Bytes l4_random(Rng& r, const Addr& s, const Addr& d, uint8_t& proto, std::string& desc) {
     const Fixtures& fx = Fixtures::get();
+    if (s.is6() && r.chance(0.2)) { proto = 58; desc += "/icmpv6-nd"; return icmp6_nd(r, s, d); }
     int k = (int)r.below(s.is6() ? 9 : 12);
     switch (k) {
         case 0: { proto = 6; TcpSeg t; t.sport = (uint16_t)r.next(); t.dport = (uint16_t)r.next(); t.seq = (uint32_t)r.next(); t.ack = (uint32_t)r.next(); t.flags = (uint8_t)r.next() & 0x3f; t.win = (uint16_t)r.next();
                   if (r.chance(0.5)) t.opt_mss((uint16_t)r.next()); if (r.chance(0.3)) t.opt_sack_permitted(); if (r.chance(0.3)) t.opt_timestamp((uint32_t)r.next(), (uint32_t)r.next());
                   if (r.chance(0.3)) { std::vector<std::pair<uint32_t, uint32_t> > b; int n = (int)r.range(1, 3); for (int i = 0; i < n; ++i) b.push_back(std::make_pair((uint32_t)r.next(), (uint32_t)r.next())); if (t.options.size() + 2 + 2 + 8 * b.size() <= 40) t.opt_sack(b); }
                   if (r.chance(0.2)) { t.options.push_back(3); t.options.push_back(3); t.options.push_back((uint8_t)r.range(0, 14)); }
+                  if (r.chance(0.15)) { int kind = (int)r.range(6, 34); size_t l = (size_t)r.range(0, 6); if (t.options.size() + 2 + l <= 40) { t.options.push_back((uint8_t)kind); t.options.push_back((uint8_t)(2 + l)); putb(t.options, biased_bytes(r, l)); } }
                   t.payload = r.bytes((size_t)r.small(0, 200)); desc += "/tcp"; return tcp_bytes(t, s, d); }
         case 1: { proto = 17; desc += "/udp"; return udp_bytes((uint16_t)r.range(1024, 65535), (uint16_t)r.range(1024, 65535), r.bytes((size_t)r.small(0, 200)), s, d); }
         case 2: { proto = 17; desc += "/udp/dns"; Bytes dns = fx.has("dns") && r.chance(0.6) ? fx.pick("dns", r).second : dns_bytes((uint16_t)r.next(), r.chance(0.5), r.chance(0.5) ? "www.example.com" : "a.b.c.d.e", r.chance(0.5)); bool q = r.chance(0.5); return udp_bytes(q ? (uint16_t)r.range(1024, 65535) : 53, q ? 53 : (uint16_t)r.range(1024, 65535), dns, s, d); }
         case 3: { proto = 17; desc += "/udp/rtp"; Bytes rtp = fx.has("rtp") ? fx.pick("rtp", r).second : r.bytes(12); if (!rtp.empty()) rtp[0] = (rtp[0] & 0x3f) | 0x80; return udp_bytes((uint16_t)(r.range(8000, 30000) & ~1), (uint16_t)(r.range(8000, 30000) & ~1), rtp, s, d); }
         case 4: { proto = 17; desc += "/udp/vxlan"; Bytes v; put32(v, 0x08000000); put32(v, ((uint32_t)r.next() & 0xffffff) << 8); Bytes inner = eth_bytes(Mac::of(1), Mac::of(2), 0x0800, ip4_bytes(Ip4Hdr(), r.bytes(20)), false); putb(v, inner); return udp_bytes((uint16_t)r.range(1024, 65535), 4789, v, s, d); }
-        case 5: if (s.is6()) { proto = 17; desc += "/udp/dhcpv6"; Bytes p = fx.has("dhcpv6") ? fx.pick("dhcpv6", r).second : r.bytes(8); bool c = r.chance(0.5); return udp_bytes(c ? 546 : 547, c ? 547 : 546, p, s, d); }
-                else { proto = 17; desc += "/udp/dhcp"; Bytes p = fx.has("dhcp") ? fx.pick("dhcp", r).second : r.bytes(240); bool c = r.chance(0.5); return udp_bytes(c ? 68 : 67, c ? 67 : 68, p, s, d); }
-        case 6: if (s.is6()) { proto = 58; desc += "/icmpv6"; Bytes p = fx.has("icmpv6") && r.chance(0.7) ? fx.pick("icmpv6", r).second : icmp6_bytes(r.chance(0.5) ? 128 : 129, 0, (uint16_t)r.next(), (uint16_t)r.next(), r.bytes((size_t)r.small(0, 64)), s, d); return p; }
-                else { proto = 1; desc += "/icmp"; Bytes p = fx.has("icmp") && r.chance(0.6) ? fx.pick("icmp", r).second : icmp_bytes((uint8_t)r.pick(std::vector<int>{0, 8, 3, 11, 13, 14, 17, 18, 5, 12, 4}), (uint8_t)r.range(0, 5), (uint16_t)r.next(), (uint16_t)r.next(), r.bytes((size_t)r.small(0, 64))); return p; }
+        case 5: if (s.is6()) { proto = 17; desc += "/udp/dhcpv6"; Bytes p = fx.has("dhcpv6") && r.chance(0.3) ? fx.pick("dhcpv6", r).second : dhcpv6_random(r); bool c = r.chance(0.5); return udp_bytes(c ? 546 : 547, c ? 547 : 546, p, s, d); }
+                else { proto = 17; desc += "/udp/dhcp"; Bytes p = fx.has("dhcp") && r.chance(0.3) ? fx.pick("dhcp", r).second : dhcp_random(r); bool c = r.chance(0.5); return udp_bytes(c ? 68 : 67, c ? 67 : 68, p, s, d); }
+        case 6: if (s.is6()) { proto = 58; desc += "/icmpv6"; if (r.chance(0.5)) { desc += "-nd"; return icmp6_nd(r, s, d); } Bytes p = fx.has("icmpv6") && r.chance(0.7) ? fx.pick("icmpv6", r).second : icmp6_bytes(r.chance(0.5) ? 128 : 129, 0, (uint16_t)r.next(), (uint16_t)r.next(), r.bytes((size_t)r.small(0, 64)), s, d); return p; }
+                else { proto = 1; desc += "/icmp"; Bytes p = fx.has("icmp") && r.chance(0.6) ? fx.pick("icmp", r).second : icmp_bytes((uint8_t)r.pick(std::vector<int>{0, 8, 13, 14, 17, 18}), 0, (uint16_t)r.next(), (uint16_t)r.next(), r.bytes((size_t)r.small(0, 64))); return p; }
         case 7: { if (fx.has("tcp")) { proto = 6; desc += "/tcp(fix)"; return fx.pick("tcp", r).second; } proto = 253; return r.bytes(8); }
         case 8: { if (fx.has("udp")) { proto = 17; desc += "/udp(fix)"; return fx.pick("udp", r).second; } proto = 253; return r.bytes(8); }
         case 9: { proto = 1; desc += "/icmp-quote"; Ip4Hdr q; q.src = s; q.dst = rnd4(r); q.proto = 17; q.id = (uint16_t)r.next(); Bytes quoted = ip4_bytes(q, r.bytes(8)); return icmp_bytes(r.chance(0.5) ? 3 : 11, (uint8_t)r.range(0, 3), 0, 0, quoted); }
         case 10: { proto = 4; desc += "/ipip"; uint8_t p2 = 0; std::string d2; Addr a = rnd4(r), b = rnd4(r); Bytes in = l4_random(r, a, b, p2, d2); desc += d2; Ip4Hdr h; h.src = a; h.dst = b; h.proto = p2; return ip4_bytes(h, in); }
-        default: { proto = (uint8_t)r.pick(std::vector<int>{50, 51, 47, 253, 2, 89, 132}); desc += fmt("/proto%u", proto); if (proto == 51) { Bytes ah; ah.push_back(6); ah.push_back(4); put16(ah, 0); put32(ah, (uint32_t)r.next()); put32(ah, (uint32_t)r.next()); putb(ah, r.bytes(12)); putb(ah, r.bytes(20)); return ah; } return r.bytes((size_t)r.small(8, 100)); }
+        default: { proto = (uint8_t)r.pick(std::vector<int>{50, 51, 47, 253, 2, 89, 132}); desc += fmt("/proto%u", proto); if (proto == 51) { Bytes ah; ah.push_back(59); ah.push_back(4); put16(ah, 0); put32(ah, (uint32_t)r.next()); put32(ah, (uint32_t)r.next()); putb(ah, r.bytes(12)); return ah; } return r.bytes((size_t)r.small(8, 100)); }
     }
 }
 
@@ -84,7 +118,8 @@ inline Bytes ip_random(Rng& r, bool v6, std::string& desc) {
 
 inline Bytes dot11_random(Rng& r, std::string& desc) {
     const Fixtures& fx = Fixtures::get();
-    if (fx.has("dot11") && r.chance(0.6)) { auto& p = fx.pick("dot11", r); desc += "dot11(" + p.first + ")"; return p.second; }
+    if (fx.has("dot11") && r.chance(0.4)) { auto& p = fx.pick("dot11", r); desc += "dot11(" + p.first + ")"; return p.second; }
+    if (r.chance(0.4)) { desc += "dot11-mgmt-random"; return dot11_mgmt_random(r); }
     // data frame (optionally QoS) + LLC/SNAP + IP
     Bytes f; bool qos = r.chance(0.5); int ds = (int)r.below(4); f.push_back(qos ? 0x88 : 0x08); f.push_back((uint8_t)ds | (r.chance(0.1) ? 0x08 : 0)); put16(f, (uint16_t)r.next());
     for (int i = 0; i < 3; ++i) { Mac m = Mac::of((uint8_t)r.range(1, 9)); putb(f, m.b, 6); } put16(f, (uint16_t)(r.next() & 0xfff0));
@@ -103,7 +138,7 @@ inline Frame frame_for(Rng& r, int dlt) {
             else if (k == 2 && fx.has("dot3")) { auto& p = fx.pick("dot3", r); d = "dot3(" + p.first + ")"; b = p.second; }
             else if (k == 3) { const char* lv = r.chance(0.5) ? "stp" : (r.chance(0.5) ? "llc" : "snap"); Bytes pl = fx.has(lv) ? fx.pick(lv, r).second : r.bytes(10); if (std::string(lv) == "stp") { Bytes l; l.push_back(0x42); l.push_back(0x42); l.push_back(3); putb(l, pl); pl = l; } d = std::string("dot3/") + lv; b = eth_bytes(Mac::of(1), Mac::of(2), (uint16_t)pl.size(), pl, r.chance(0.5)); }
             else if (k == 4) { Bytes pl = fx.has("arp") ? fx.pick("arp", r).second : r.bytes(28); d = "eth/arp"; b = eth_bytes(Mac::of(0xff), Mac::of(2), 0x0806, pl); }
-            else if (k == 5) { Bytes pl = fx.has("pppoe") ? fx.pick("pppoe", r).second : r.bytes(6); d = "eth/pppoe"; b = eth_bytes(Mac::of(1), Mac::of(2), pl.size() > 1 && pl[1] == 0 ? 0x8864 : 0x8863, pl); }
+            else if (k == 5) { bool sess = false; Bytes pl = r.chance(0.6) ? pppoe_random(r, sess) : (fx.has("pppoe") ? fx.pick("pppoe", r).second : r.bytes(6)); d = "eth/pppoe"; b = eth_bytes(Mac::of(1), Mac::of(2), pl.size() > 1 && pl[1] == 0 ? 0x8864 : 0x8863, pl); }
             else if (k == 6) { d = "eth/mpls/"; Bytes m; int n = (int)r.range(1, 3); for (int i = 0; i < n; ++i) { uint32_t lab = ((uint32_t)r.next() & 0xfffff) << 12 | ((uint32_t)r.range(0, 7) << 9) | (i == n - 1 ? 0x100 : 0) | (uint32_t)r.range(1, 255); put32(m, lab); } putb(m, l3(false)); b = eth_bytes(Mac::of(1), Mac::of(2), 0x8847, m); }
             else if (k == 7) { d = "eth/eapol"; Bytes pl = fx.has("rsneapol") ? fx.pick("rsneapol", r).second : r.bytes(99); b = eth_bytes(Mac::of(1), Mac::of(2), 0x888e, pl); }
             else if (k == 8) { d = "eth/dot1q/"; bool v6 = r.chance(0.3); Bytes p = l3(v6); b = eth_vlan_bytes(Mac::of(1), Mac::of(2), (uint16_t)r.next(), v6 ? 0x86dd : 0x0800, p, r.chance(0.5)); }
